@@ -29,6 +29,7 @@ RULE = (
 )
 RULE += '; an earlier complete call of the same wrapper (own outcome script) may precede the judged call'
 RULE += '; one exception instance per kind may be raised again and again; the calling task may have absorbed a cancel earlier'
+RULE += '; success values may be exception instances; caught exceptions may have falsy instances'
 LEVEL_TEXT = (
     "Reference scan of the scripted outcome sequence decides the number of invocations, the returned value / raised "
     "exception object (identity), and the exact list of pauses. Finite configuration space: enumerated completely for "
@@ -77,6 +78,14 @@ class SubSubA(SubA):
     pass
 
 
+class FalsySubA(CaughtA):
+    """a caught failure whose INSTANCE is falsy (an error collection raised empty, a zero status): retried, paused for and
+    reported like any other"""
+
+    def __len__(self):
+        return 0
+
+
 class DeepUnicode(UnicodeError):  # ValueError <- UnicodeError <- DeepUnicode
     pass
 
@@ -94,12 +103,12 @@ class OtherBase(BaseException):
 FAMILY = {False: (CaughtA, CaughtB, SubA, Uncaught), True: (ValueError, KeyError, UnicodeError, TypeError)}
 
 
-def _make_exc(kind, i, ncatch, builtin=False):
+def _make_exc(kind, i, ncatch, builtin=False, falsy=False):
     caught_a, caught_b, sub_a, uncaught = FAMILY[bool(builtin)]
     if kind == "caught":
         return (caught_b if (ncatch == 2 and i % 2 == 1) else caught_a)(i)
     if kind == "sub":
-        return sub_a(i)
+        return (FalsySubA if falsy and not builtin else sub_a)(i)
     if kind == "deep":
         return (DeepUnicode if builtin else SubSubA)(i)
     if kind == "uncaught":
@@ -227,17 +236,18 @@ def run_case(case) -> Outcome:
         cur = phase["seq"]
         kind = cur[i] if i < len(cur) else "ok"
         if kind == "ok":
-            v = ("value", i)
+            # "ok_exc": the function's SUCCESS value is an exception instance (returned, not raised): a result like any other
+            v = ValueError(("a returned value", i)) if case.get("ok_exc") else ("value", i)
             produced.append(v)
             return v
         if case.get("shared_exc"):
             # the function fails with ONE pre-built instance per kind of failure (a stored error, an already failed future's
             # exception) - in every attempt and in every call: each call still makes its own attempts
             if kind not in shared:
-                shared[kind] = _make_exc(kind, 0, ncatch, case.get("builtin"))
+                shared[kind] = _make_exc(kind, 0, ncatch, case.get("builtin"), case.get("falsy_exc"))
             e = shared[kind]
         else:
-            e = _make_exc(kind, i, ncatch, case.get("builtin"))
+            e = _make_exc(kind, i, ncatch, case.get("builtin"), case.get("falsy_exc"))
         produced.append(e)
         raise e
 
@@ -503,6 +513,9 @@ def enumerate_cases(tier):
                         yield {**_case(variant, False, 2, "class", 1, delay, [*seq, "ok"]), "warm": warm, "shared_exc": True}
     for seq in itertools.product(["ok", "caught", "sub", "uncaught"], repeat=3):
         yield {**_case("async", False, 2, "class", 1, {"k": "none"}, [*seq, "ok"]), "swallowed_cancel": True}
+        for variant in ("sync", "async"):
+            for delay in ({"k": "none"}, {"k": "float", "v": 0.5}, {"k": "fn"}):
+                yield {**_case(variant, False, 2, "class", 1, delay, [*seq, "ok"]), "falsy_exc": True, "ok_exc": True}
     # two overlapping calls of one wrapped async function (limit 1..2, every pair of short outcome scripts)
     short = ["ok", "caught", "uncaught"]
     for limit in (1, 2):
@@ -525,7 +538,7 @@ def strategy(tier):
         kwargs = draw(st.dictionaries(st.sampled_from(["k", "x", "y"]), st.integers(0, 3), max_size=2))
         builtin = draw(st.sampled_from([False, False, True]))
         warm = draw(st.one_of(st.none(), st.none(), st.lists(st.sampled_from(["caught", "caught", "sub", "ok", "uncaught"]), min_size=1, max_size=limit + 1)))
-        return {"builtin": builtin, "warm": warm, "in_scope": draw(st.integers(0, 2)) == 0, "shared_exc": draw(st.integers(0, 3)) == 0, "swallowed_cancel": draw(st.integers(0, 4)) == 0, **_case(
+        return {"builtin": builtin, "warm": warm, "in_scope": draw(st.integers(0, 2)) == 0, "shared_exc": draw(st.integers(0, 3)) == 0, "swallowed_cancel": draw(st.integers(0, 4)) == 0, "falsy_exc": draw(st.integers(0, 3)) == 0, "ok_exc": draw(st.integers(0, 3)) == 0, **_case(
             draw(st.sampled_from(["sync", "async"])),
             draw(st.booleans()) and draw(st.booleans()),
             limit,
